@@ -6,10 +6,10 @@ from .. import hx
 ID = "C16"
 LEVEL = "model_checking"
 BOUNDS = {
-    "quick": "two trains with 0..3 spikes each, n1+n2 <= 5; symbolic 0 < max_tau1 <= max_tau2; MRTS omitted and "
+    "quick": "two trains with 1..3 spikes each, n1+n2 <= 4 (<= 5 for py with MRTS omitted); symbolic 0 < max_tau1 <= max_tau2; MRTS omitted and "
              "symbolic > 0; functions spike_sync_profile, spike_train_order_profile, spike_directionality_values, "
              "filter_by_spike_sync; py and pyx",
-    "thorough": "two trains with 0..4 spikes each, n1+n2 <= 6; same settings",
+    "thorough": "two trains with 1..3 spikes each, n1+n2 <= 5 (3+3 for py with MRTS omitted); same settings",
 }
 OUTSIDE = "larger trains; more than two trains (the filter accumulates pairwise indicators, C17)"
 ASSUMPTIONS = ["'coincident' is read off the functions' own outputs (marks 1, order values +-1, kept spikes); "
@@ -17,12 +17,15 @@ ASSUMPTIONS = ["'coincident' is read off the functions' own outputs (marks 1, or
 
 
 def configs(tier):
-    n = 3 if tier == "quick" else 4
-    tot = 5 if tier == "quick" else 6
+    n = 3
     for be in ("py", "pyx"):
         for mk in ("omit", "pos"):
             for n1 in range(1, n + 1):
                 for n2 in range(1, n + 1):
+                    if tier == "quick":
+                        tot = 5 if (be == "py" and mk == "omit") else 4
+                    else:
+                        tot = 6 if (be == "py" and mk == "omit") else 5
                     if n1 + n2 > tot:
                         continue
                     yield dict(name="%s-m%s-%d+%d" % (be, mk, n1, n2), backend=be, m=mk, n1=n1, n2=n2,
